@@ -190,6 +190,17 @@ class LegacySparseDrugComboImpl:
         self.V2 = self.V2 * 0.0
         self.V1 = self.V1 * 0.0
         self.V0 = self.V0 * 0.0
+        # the shrinkage state goes back to its initial values as well
+        self.phi2 = 100.0 * np.ones_like(self.V2)
+        self.phi1 = 100.0 * np.ones_like(self.V1)
+        self.phi0 = 100.0 * np.ones_like(self.V0)
+        self.eta2 = np.ones(self.D, dtype=np.float32)
+        self.eta1 = np.ones(self.D, dtype=np.float32)
+        self.eta0 = 1.0
+        self.tau = 100.0 * np.ones(self.D, np.float32)
+        self.tau0 = 100.0
+        if self.mult_gamma_proc:
+            self.gam = np.ones(self.D, np.float32)
         self.alpha = 0.0
         self.prec = 100.0
         self.Mu = np.zeros(0, np.float32)
